@@ -318,10 +318,14 @@ def Node.operand : Node → R Node
 
 /-! ### process -/
 
-/-- `parse_obj.process(context, stack, fn, index)` for the singleton described by `info`, with its operand registers
-    `p1`, `p2` (only read by the classes that own such a register) -/
-def process (ctx : Ctx) (info : Opcodes.OpInfo) (p1 p2 : Nat) (index : Int) (st : PState) : R PState :=
-  let long : Int := (p1 * 256 + p2 : Nat)
+/-- classes whose `process` reads `self.param1` and `self.param2` (3-byte instructions) -/
+def readsP2 : List String := ["Int2bOpcode", "Literal2Opcode", "FowardJumpOpcode", "ConditionalJumpOpcode", "LoadLongListOpcode"]
+
+/-- classes whose `process` reads `self.param1` only -/
+def readsP1 : List String := ["Int1bOpcode", "LiteralOpcode", "SymbolOpcode", "PropertyOpcode", "VariableOpcode", "GlobalVariableOpcode", "PropertyNameOpcode", "ParameterNameOpcode", "LocalVariableOpcode", "TellPropertyOpcode", "AssignGlobalVariableOpcode", "LoadPropertyOpcode", "AssignPropertyOpcode", "AssignParameterOpcode", "AssignLocalVariableOpcode", "JumpOpcode", "CallLocalOpcode", "CallExternalOpcode", "CallObjectMethodOpcode", "CallExternalMethodOpcode", "PropertyAccesorOpcode", "AssignPropertyAccesorOpcode", "KeyPropertyAccesorOpcode", "CopySymbolOpcode", "DiscardSymbolsOpcode", "LoadListOpcode"]
+
+/-- `process` of the classes that read no operand register -/
+def process0 (ctx : Ctx) (info : Opcodes.OpInfo) (index : Int) (st : PState) : R PState :=
   match info.impl with
   | "BinaryOperationOpcode" => do
     let opname ← attr info "opname"
@@ -335,14 +339,114 @@ def process (ctx : Ctx) (info : Opcodes.OpInfo) (p1 p2 : Nat) (index : Int) (st 
   | "ExitOpcode" | "ExitFactoryMethodOpcode" =>
     .ok (st.addStmt index (.callFn (.s (S "exit")) index .none true false false))
   | "ZeroOpcode" => .ok (st.push (mkConst (.s (S "0")) index))
+  | "AssignModeLocalVarOpcode" => do
+    let mode ← attr info "mode"
+    let (operand, st) ← st.pop
+    if operand.cls ≠ .leaf .const then throw Err.type
+    let n ← operand.name
+    let op1 ← n.toInt
+    let (st, idx) := recIndex st op1
+    let l ← pyGet ctx.localVars idx
+    let (r, st) ← st.pop
+    pure (st.addStmt index (.spAssign index l r mode))
+  | "AssignModeFieldOpcode" => do
+    let mode ← attr info "mode"
+    let (x, st) ← st.pop
+    let (r, st) ← st.pop
+    pure (st.addStmt index (.spAssign index (fieldOf index x) r mode))
+  | "WindowTellStartOpcode" => do
+    let (x, st) ← st.pop
+    pure { st.addStmt index (.tell index x []) with tell := true }
+  | "WindowTellEndOpcode" => do
+    let stmts ← tellEnd st.stmts
+    pure { st with stmts := stmts, tell := false }
+  | "SpecialPropertiesOpcode" => specialProps st index
+  | "AssignSpecialPropertiesOpcode" => do
+    let st ← specialProps st index
+    assignTop st index
+  | "NumberOfElementsOpcode" => do
+    let (optype, st) ← popInt st
+    let ty ← listGet PropTables.operationTypes optype
+    let (x, st) ← st.pop
+    pure (st.push (.unaryStr (S "number") index (some ty) x))
+  | "NameOfCastElementsOpcode" => do
+    let (optype, st) ← popInt st
+    let (p2n, st) ← popName st
+    if optype = 1 then pure (st.push (.unaryStr (S "name") index none (.leaf .menu p2n index)))
+    else if optype = 2 then pure (st.push (.unaryStr (S "number") index none (.menuItemsAcc index (.leaf .menu p2n index))))
+    else throw Err.other
+  | "MenuitemPropertiesOpcode" => do
+    let (pi, st) ← popInt st
+    let (menuId, st) ← popName st
+    let (itemId, st) ← popName st
+    let prop ← listGet PropTables.menuitemProperties pi
+    pure (st.push (.propAcc index (.menuItemAcc index (.leaf .menu menuId index) (.leaf .menuItem itemId index)) prop))
+  | "AssignMenuitemPropertiesOpcode" => do
+    let (pi, st) ← popInt st
+    let (value, st) ← st.pop
+    let (menuId, st) ← popName st
+    let (itemId, st) ← popName st
+    let prop ← listGet PropTables.menuitemProperties pi
+    let pac := Node.propAcc index (.menuItemAcc index (.leaf .menu menuId index) (.leaf .menuItem itemId index)) prop
+    pure (st.addStmt index (assignNode index pac value))
+  | "SoundPropertiesOpcode" => objProp .soundChan PropTables.soundProperties st index
+  | "AssignSoundPropertiesOpcode" => assignObjProp .soundChan PropTables.soundProperties st index
+  | "SpritePropertiesOpcode" => objProp .sprite PropTables.spriteProperties st index
+  | "AssignSpritePropertiesOpcode" => assignObjProp .sprite PropTables.spriteProperties st index
+  | "SystemPropertiesOpcode" => systemProps st index
+  | "AssignSystemPropertiesOpcode" => do
+    let st ← systemProps st index
+    assignTop st index
+  | "NumberOfCastElementsOpcode" => do
+    let (optype, st) ← popInt st
+    let t ← listGet PropTables.numOfTypes optype
+    if t = S "perFrameHook" then
+      pure (st.push (.propAcc index (.leaf .localVar (.s (S "_system")) index) (S "perFrameHook")))
+    else pure (st.push (.unaryStr (S "number") index none (.leaf .localVar (.s t) index)))
+  | "CastPropertiesOpcode" => objProp .cast PropTables.castProperties st index
+  | "AssignCastPropertiesOpcode" => assignObjProp .cast PropTables.castProperties st index
+  | "FieldPropertiesOpcode" => do
+    let (pi, st) ← popInt st
+    let (x, st) ← st.pop
+    let prop ← listGet PropTables.castProperties pi
+    pure (st.push (.propAcc index (fieldOf index x) prop))
+  | "AssignFieldPropertiesOpcode" => assignObjProp .cast PropTables.castProperties st index
+  | "VideoPropertiesOpcode" => objProp .cast PropTables.videoProperties st index
+  | "AssignVideoPropertiesOpcode" => assignObjProp .cast PropTables.videoProperties st index
+  | "ToListOpcode" => do
+    let (x, st) ← st.pop
+    pure (st.push (.toList index x))
+  | "ToDictionaryOpcode" => do
+    let (x, st) ← st.pop
+    pure (st.push (.toDict index x))
+  | "StringOperationOpcode" => do
+    let (x, st) ← st.pop
+    let (op, st) ← addModifiers x st index
+    pure (st.push op)
+  | "HiliteOpcode" => do
+    let (x, st) ← st.pop
+    let (f, st) ← addModifiers (fieldOf index x) st index
+    pure (st.addStmt index (.unary (S "hilite") index f))
+  | "PutIntoFieldOpcode" | "PutIntoFieldSpOpcode" => putChunk ctx "field" (S "into") st index
+  | "PutAfterFieldOpcode" => putChunk ctx "field" (S "after") st index
+  | "PutBeforeFieldOpcode" => putChunk ctx "field" (S "before") st index
+  | "PutIntoListOpcode" => putChunk ctx "list" (S "into") st index
+  | "PutAfterListOpcode" => putChunk ctx "list" (S "after") st index
+  | "PutBeforeListOpcode" => putChunk ctx "list" (S "before") st index
+  | "PutIntoStringOpcode" => putChunk ctx "string" (S "into") st index
+  | "PutAfterStringOpcode" => putChunk ctx "string" (S "after") st index
+  | "PutBeforeStringOpcode" => putChunk ctx "string" (S "before") st index
+  | "DeleteFromListOpcode" => deleteChunk ctx "list" st index
+  | "DeleteFromStringOpcode" => deleteChunk ctx "string" st index
+  | "DeleteFromFieldOpcode" => deleteChunk ctx "field" st index
+  | _ => .error .notImpl
+
+/-- `process` of the classes that read `self.param1` -/
+def process1 (ctx : Ctx) (info : Opcodes.OpInfo) (p1 : Nat) (index : Int) (st : PState) : R PState :=
+  match info.impl with
   | "Int1bOpcode" => .ok (st.push (mkConst (.s (intStr (int1b p1))) index))
-  | "Int2bOpcode" => .ok (st.push (mkConst (.s (intStr (int2b p1 p2))) index))
   | "LiteralOpcode" => do
     let (st, idx) := recIndex st p1
-    let c ← pyGet ctx.constants idx
-    pure (st.push (mkConst c index))
-  | "Literal2Opcode" => do
-    let (st, idx) := recIndex st long
     let c ← pyGet ctx.constants idx
     pure (st.push (mkConst c index))
   | "SymbolOpcode" => do
@@ -406,34 +510,9 @@ def process (ctx : Ctx) (info : Opcodes.OpInfo) (p1 p2 : Nat) (index : Int) (st 
     let l ← pyGet ctx.localVars idx
     let (r, st) ← st.pop
     pure (st.addStmt index (assignNode index l r))
-  | "AssignModeLocalVarOpcode" => do
-    let mode ← attr info "mode"
-    let (operand, st) ← st.pop
-    if operand.cls ≠ .leaf .const then throw Err.type
-    let n ← operand.name
-    let op1 ← n.toInt
-    let (st, idx) := recIndex st op1
-    let l ← pyGet ctx.localVars idx
-    let (r, st) ← st.pop
-    pure (st.addStmt index (.spAssign index l r mode))
-  | "AssignModeFieldOpcode" => do
-    let mode ← attr info "mode"
-    let (x, st) ← st.pop
-    let (r, st) ← st.pop
-    pure (st.addStmt index (.spAssign index (fieldOf index x) r mode))
   | "JumpOpcode" => do
     let stmts ← jumpBack st.stmts index p1
     pure { st with stmts := stmts }
-  | "FowardJumpOpcode" => .ok (st.addStmt index (.jump index (index + long)))
-  | "ConditionalJumpOpcode" => do
-    let (c, st) ← st.pop
-    pure (st.addStmt index (.jz index c (index + long)))
-  | "WindowTellStartOpcode" => do
-    let (x, st) ← st.pop
-    pure { st.addStmt index (.tell index x []) with tell := true }
-  | "WindowTellEndOpcode" => do
-    let stmts ← tellEnd st.stmts
-    pure { st with stmts := stmts, tell := false }
   | "CallLocalOpcode" => do
     let fname ← pyGet ctx.localFuncs p1
     let (ps, st) ← st.pop
@@ -464,59 +543,6 @@ def process (ctx : Ctx) (info : Opcodes.OpInfo) (p1 p2 : Nat) (index : Int) (st 
         let op := Node.callMethod (.s fname) index obj inner'
         pure (if startsWith ln (S "<") then st.push op else st.addStmt index op)
     | _ => throw Err.type
-  | "SpecialPropertiesOpcode" => specialProps st index
-  | "AssignSpecialPropertiesOpcode" => do
-    let st ← specialProps st index
-    assignTop st index
-  | "NumberOfElementsOpcode" => do
-    let (optype, st) ← popInt st
-    let ty ← listGet PropTables.operationTypes optype
-    let (x, st) ← st.pop
-    pure (st.push (.unaryStr (S "number") index (some ty) x))
-  | "NameOfCastElementsOpcode" => do
-    let (optype, st) ← popInt st
-    let (p2n, st) ← popName st
-    if optype = 1 then pure (st.push (.unaryStr (S "name") index none (.leaf .menu p2n index)))
-    else if optype = 2 then pure (st.push (.unaryStr (S "number") index none (.menuItemsAcc index (.leaf .menu p2n index))))
-    else throw Err.other
-  | "MenuitemPropertiesOpcode" => do
-    let (pi, st) ← popInt st
-    let (menuId, st) ← popName st
-    let (itemId, st) ← popName st
-    let prop ← listGet PropTables.menuitemProperties pi
-    pure (st.push (.propAcc index (.menuItemAcc index (.leaf .menu menuId index) (.leaf .menuItem itemId index)) prop))
-  | "AssignMenuitemPropertiesOpcode" => do
-    let (pi, st) ← popInt st
-    let (value, st) ← st.pop
-    let (menuId, st) ← popName st
-    let (itemId, st) ← popName st
-    let prop ← listGet PropTables.menuitemProperties pi
-    let pac := Node.propAcc index (.menuItemAcc index (.leaf .menu menuId index) (.leaf .menuItem itemId index)) prop
-    pure (st.addStmt index (assignNode index pac value))
-  | "SoundPropertiesOpcode" => objProp .soundChan PropTables.soundProperties st index
-  | "AssignSoundPropertiesOpcode" => assignObjProp .soundChan PropTables.soundProperties st index
-  | "SpritePropertiesOpcode" => objProp .sprite PropTables.spriteProperties st index
-  | "AssignSpritePropertiesOpcode" => assignObjProp .sprite PropTables.spriteProperties st index
-  | "SystemPropertiesOpcode" => systemProps st index
-  | "AssignSystemPropertiesOpcode" => do
-    let st ← systemProps st index
-    assignTop st index
-  | "NumberOfCastElementsOpcode" => do
-    let (optype, st) ← popInt st
-    let t ← listGet PropTables.numOfTypes optype
-    if t = S "perFrameHook" then
-      pure (st.push (.propAcc index (.leaf .localVar (.s (S "_system")) index) (S "perFrameHook")))
-    else pure (st.push (.unaryStr (S "number") index none (.leaf .localVar (.s t) index)))
-  | "CastPropertiesOpcode" => objProp .cast PropTables.castProperties st index
-  | "AssignCastPropertiesOpcode" => assignObjProp .cast PropTables.castProperties st index
-  | "FieldPropertiesOpcode" => do
-    let (pi, st) ← popInt st
-    let (x, st) ← st.pop
-    let prop ← listGet PropTables.castProperties pi
-    pure (st.push (.propAcc index (fieldOf index x) prop))
-  | "AssignFieldPropertiesOpcode" => assignObjProp .cast PropTables.castProperties st index
-  | "VideoPropertiesOpcode" => objProp .cast PropTables.videoProperties st index
-  | "AssignVideoPropertiesOpcode" => assignObjProp .cast PropTables.videoProperties st index
   | "PropertyAccesorOpcode" => do
     let prop ← nameAt ctx p1
     let (x, st) ← st.pop
@@ -538,44 +564,40 @@ def process (ctx : Ctx) (info : Opcodes.OpInfo) (p1 p2 : Nat) (index : Int) (st 
     pure (st.push x)
   | "DiscardSymbolsOpcode" =>
     if p1 ≤ st.stack.length then .ok { st with stack := st.stack.drop p1 } else .error .index
-  | "ToListOpcode" => do
-    let (x, st) ← st.pop
-    pure (st.push (.toList index x))
-  | "ToDictionaryOpcode" => do
-    let (x, st) ← st.pop
-    pure (st.push (.toDict index x))
   | "LoadListOpcode" => do
     let name ← attr info "name"
     if p1 ≤ st.stack.length then
       pure ({ st with stack := st.stack.drop p1 }.push (.loadList name index (st.stack.take p1)))
     else throw Err.index
+  | _ => .error .notImpl
+
+/-- `process` of the classes that read `self.param1` and `self.param2` -/
+def process2 (ctx : Ctx) (info : Opcodes.OpInfo) (p1 p2 : Nat) (index : Int) (st : PState) : R PState :=
+  let long : Int := (p1 * 256 + p2 : Nat)
+  match info.impl with
+  | "Int2bOpcode" => .ok (st.push (mkConst (.s (intStr (int2b p1 p2))) index))
+  | "Literal2Opcode" => do
+    let (st, idx) := recIndex st long
+    let c ← pyGet ctx.constants idx
+    pure (st.push (mkConst c index))
+  | "FowardJumpOpcode" => .ok (st.addStmt index (.jump index (index + long)))
+  | "ConditionalJumpOpcode" => do
+    let (c, st) ← st.pop
+    pure (st.addStmt index (.jz index c (index + long)))
   | "LoadLongListOpcode" => do
     let name ← attr info "name"
     let n := p1 * 256 + p2
     if n ≤ st.stack.length then
       pure ({ st with stack := st.stack.drop n }.push (.loadList name index (st.stack.take n)))
     else throw Err.index
-  | "StringOperationOpcode" => do
-    let (x, st) ← st.pop
-    let (op, st) ← addModifiers x st index
-    pure (st.push op)
-  | "HiliteOpcode" => do
-    let (x, st) ← st.pop
-    let (f, st) ← addModifiers (fieldOf index x) st index
-    pure (st.addStmt index (.unary (S "hilite") index f))
-  | "PutIntoFieldOpcode" | "PutIntoFieldSpOpcode" => putChunk ctx "field" (S "into") st index
-  | "PutAfterFieldOpcode" => putChunk ctx "field" (S "after") st index
-  | "PutBeforeFieldOpcode" => putChunk ctx "field" (S "before") st index
-  | "PutIntoListOpcode" => putChunk ctx "list" (S "into") st index
-  | "PutAfterListOpcode" => putChunk ctx "list" (S "after") st index
-  | "PutBeforeListOpcode" => putChunk ctx "list" (S "before") st index
-  | "PutIntoStringOpcode" => putChunk ctx "string" (S "into") st index
-  | "PutAfterStringOpcode" => putChunk ctx "string" (S "after") st index
-  | "PutBeforeStringOpcode" => putChunk ctx "string" (S "before") st index
-  | "DeleteFromListOpcode" => deleteChunk ctx "list" st index
-  | "DeleteFromStringOpcode" => deleteChunk ctx "string" st index
-  | "DeleteFromFieldOpcode" => deleteChunk ctx "field" st index
   | _ => .error .notImpl
+
+/-- `parse_obj.process(context, stack, fn, index)` for the singleton described by `info`, whose operand registers currently
+    hold `p1`, `p2`. Which registers a class reads is part of the model (`readsP1`, `readsP2`). -/
+def process (ctx : Ctx) (info : Opcodes.OpInfo) (p1 p2 : Nat) (index : Int) (st : PState) : R PState :=
+  if info.impl ∈ readsP2 then process2 ctx info p1 p2 index st
+  else if info.impl ∈ readsP1 then process1 ctx info p1 index st
+  else process0 ctx info index st
 
 /-! ### parse_opcodes -/
 
@@ -585,45 +607,54 @@ abbrev Regs := List (Nat × Nat × Nat)
 def Regs.get (r : Regs) (k : Nat) : Nat × Nat := (r.lookup k).getD (0, 0)
 def Regs.set (r : Regs) (k : Nat) (v : Nat × Nat) : Regs := (k, v) :: r.filter fun e => e.1 ≠ k
 
+/-- two-byte instruction: a two-byte opcode proper (dispatch through BI_OPCODES, no register involved) or an opcode with a
+    one-byte operand (`cast(Param1Opcode, parse_obj).param1 = opcode2`). `idxc` points after the first byte. -/
+def step2 (ctx : Ctx) (d : Bytes) (opcode : Nat) (info : Opcodes.OpInfo) (idxc index : Int) (regs : Regs) (st : PState) :
+    R (Int × Regs × PState) := do
+  let opcode2 ← byteAtI d idxc
+  if info.kind = "bi" ∨ info.kind = "tri" then
+    match Opcodes.biOpcodes.lookup (opcode * 256 + opcode2) with
+    | none => .error .key
+    | some info2 => do
+      let st ← process ctx info2 0 0 index st
+      pure (idxc + 1, regs, st)
+  else do
+    let regs := regs.set opcode (opcode2, (regs.get opcode).2)
+    let st ← process ctx info (regs.get opcode).1 (regs.get opcode).2 index st
+    pure (idxc + 1, regs, st)
+
+/-- three-byte instruction -/
+def step3 (ctx : Ctx) (d : Bytes) (opcode : Nat) (info : Opcodes.OpInfo) (idxc index : Int) (regs : Regs) (st : PState) :
+    R (Int × Regs × PState) := do
+  let opcode2 ← byteAtI d idxc
+  let opcode3 ← byteAtI d (idxc + 1)
+  if info.kind = "tri" then
+    match Opcodes.triOpcodes.lookup (opcode * 65536 + opcode2 * 256 + opcode3) with
+    | none => .error .key
+    | some info3 => do
+      let st ← process ctx info3 0 0 index st
+      pure (idxc + 2, regs, st)
+  else do
+    let regs := regs.set opcode (opcode2, opcode3)
+    let st ← process ctx info (regs.get opcode).1 (regs.get opcode).2 index st
+    pure (idxc + 2, regs, st)
+
+/-- one-byte instruction: `process` runs with whatever the singleton's registers hold -/
+def step1 (ctx : Ctx) (opcode : Nat) (info : Opcodes.OpInfo) (idxc index : Int) (regs : Regs) (st : PState) :
+    R (Int × Regs × PState) := do
+  let st ← process ctx info (regs.get opcode).1 (regs.get opcode).2 index st
+  pure (idxc, regs, st)
+
 /-- one iteration of the `while (idxc - bc_off) < bc_length` loop: fetch, decode (writing the operand registers), process.
     Returns the new `idxc`. -/
 def stepOpcode (ctx : Ctx) (d : Bytes) (idxc : Int) (index : Int) (regs : Regs) (st : PState) : R (Int × Regs × PState) := do
   let opcode ← byteAtI d idxc
-  let idxc := idxc + 1
   match Opcodes.opcodes.lookup opcode with
   | none => .error .other
   | some info =>
-    if info.nbytes = 2 then do
-      let opcode2 ← byteAtI d idxc
-      let idxc := idxc + 1
-      if info.kind = "bi" ∨ info.kind = "tri" then
-        match Opcodes.biOpcodes.lookup (opcode * 256 + opcode2) with
-        | none => .error .key
-        | some info2 => do
-          let st ← process ctx info2 0 0 index st
-          pure (idxc, regs, st)
-      else do
-        -- cast(Param1Opcode, parse_obj).param1 = opcode2
-        let regs := regs.set opcode (opcode2, (regs.get opcode).2)
-        let st ← process ctx info (regs.get opcode).1 (regs.get opcode).2 index st
-        pure (idxc, regs, st)
-    else if info.nbytes = 3 then do
-      let opcode2 ← byteAtI d idxc
-      let opcode3 ← byteAtI d (idxc + 1)
-      let idxc := idxc + 2
-      if info.kind = "tri" then
-        match Opcodes.triOpcodes.lookup (opcode * 65536 + opcode2 * 256 + opcode3) with
-        | none => .error .key
-        | some info3 => do
-          let st ← process ctx info3 0 0 index st
-          pure (idxc, regs, st)
-      else do
-        let regs := regs.set opcode (opcode2, opcode3)
-        let st ← process ctx info (regs.get opcode).1 (regs.get opcode).2 index st
-        pure (idxc, regs, st)
-    else do
-      let st ← process ctx info (regs.get opcode).1 (regs.get opcode).2 index st
-      pure (idxc, regs, st)
+    if info.nbytes = 2 then step2 ctx d opcode info (idxc + 1) index regs st
+    else if info.nbytes = 3 then step3 ctx d opcode info (idxc + 1) index regs st
+    else step1 ctx opcode info (idxc + 1) index regs st
 
 /-- the opcode loop. `idxc` strictly increases (one to three bytes per instruction); the runtime test `idxc' > idxc`
     restates that and is the progress argument. -/
@@ -667,8 +698,17 @@ def paramNames (ctx : Ctx) (d : Bytes) (off : Int) : Nat → Nat → R (List Nod
     let (rest, m') ← paramNames ctx d off k (nl + 1)
     pure (node :: rest, m || m')
 
-/-- one function record block + its bytecode + condition_detect + loop_detect -/
-def parseFunc (ctx0 : Ctx) (d : Bytes) (idx : Int) (fs : FrbState) : R FrbState := do
+/-- the fields of one function record block that are used, with the local-variable and parameter name tables -/
+structure FrbRec where
+  fname : Str
+  bcLen : Int
+  bcOff : Int
+  locals : List Node
+  params : List Node
+  isMethod : Bool
+
+/-- the straight-line part of one `parse_frb` iteration -/
+def readFrb (ctx0 : Ctx) (d : Bytes) (idx : Int) : R FrbRec := do
   let nameIdx ← getSI 2 d idx
   let _ ← getSI 2 d (idx + 2)
   let bcLen ← getSI 4 d (idx + 4)
@@ -686,12 +726,22 @@ def parseFunc (ctx0 : Ctx) (d : Bytes) (idx : Int) (fs : FrbState) : R FrbState 
   let fname := nameOr ctx0.names nameIdx
   let locals ← localNames ctx0 d localOff nLocal.toNat 0
   let (params, isMethod) ← paramNames ctx0 d argOff nArg.toNat 0
-  let ctx := { ctx0 with params := params, localVars := locals }
-  let (regs, st) ← opcodeLoop ctx d bcOff bcLen bcOff fs.regs { bpc := fs.bpc, tell := fs.tell }
+  pure { fname, bcLen, bcOff, locals, params, isMethod }
+
+/-- `parse_opcodes` for one handler: the opcode loop, then condition_detect and loop_detect -/
+def parseOpcodes (ctx : Ctx) (d : Bytes) (r : FrbRec) (regs : Regs) (bpc : Nat) (tell : Bool) : R (Regs × PState) := do
+  let (regs, st) ← opcodeLoop ctx d r.bcOff r.bcLen r.bcOff regs { bpc := bpc, tell := tell }
   let stmts ← condDetect st.stmts
   let stmts ← loopDetect stmts
-  let f : FuncDef := { name := fname, pos := idx + 42, params := params, localVars := locals, globalVars := st.gvars,
-                       stmts := stmts, isMethod := isMethod }
+  pure (regs, { st with stmts := stmts })
+
+/-- one function record block + its bytecode + condition_detect + loop_detect -/
+def parseFunc (ctx0 : Ctx) (d : Bytes) (idx : Int) (fs : FrbState) : R FrbState := do
+  let r ← readFrb ctx0 d idx
+  let ctx := { ctx0 with params := r.params, localVars := r.locals }
+  let (regs, st) ← parseOpcodes ctx d r fs.regs fs.bpc fs.tell
+  let f : FuncDef := { name := r.fname, pos := idx + 42, params := r.params, localVars := r.locals, globalVars := st.gvars,
+                       stmts := st.stmts, isMethod := r.isMethod }
   pure { bpc := st.bpc, tell := st.tell, regs := regs, funcs := fs.funcs ++ [f] }
 
 def parseFuncs (ctx : Ctx) (d : Bytes) : Nat → Int → FrbState → R FrbState
@@ -700,19 +750,33 @@ def parseFuncs (ctx : Ctx) (d : Bytes) : Nat → Int → FrbState → R FrbState
     let fs ← parseFunc ctx d idx fs
     parseFuncs ctx d k (idx + 42) fs
 
-/-- `parse_lrcr_file_data(fdata, name_list)` started with the opcode singletons' operand registers `regs`;
-    returns the script and the registers afterwards -/
-def parseLscrWith (codec : Codec) (regs : Regs) (d : Bytes) (names : List Str) : R (Script × Regs) := do
+/-- everything `parse_lrcr_file_data` reads before the function records -/
+structure Container where
+  h : Header
+  constants : List Name
+  bpc : Nat
+  factoryName : Str
+  props : List Str
+  globs : List Str
+  lfn : List Str
+
+def readContainer (codec : Codec) (d : Bytes) (names : List Str) : R Container := do
   let h ← parseHeader d
   let (constants, bpc) ← parseCrb codec d h.crbOff h.conOff h.crbN
   let factoryName ← if h.factoryNameIdx ≥ 0 then pyGet names h.factoryNameIdx else pure []
   let props ← if h.grbOff ≠ h.prbOff then nameRecords d names h.prbOff h.grbOff else pure []
   let globs ← if h.frbOff ≠ h.grbOff then nameRecords d names h.grbOff h.frbOff else pure []
   let lfn ← funcNames d names h.frbN.toNat h.frbOff
-  let ctx : Ctx := { names := names, constants := constants, localFuncs := lfn, props := props, params := [], localVars := [] }
-  let fs ← parseFuncs ctx d h.frbN.toNat h.frbOff { bpc := bpc, tell := false, regs := regs, funcs := [] }
-  pure ({ properties := props, globalVars := globs, functions := fs.funcs, scrNum := h.scrNum, contScrNum := h.contScrNum,
-          factoryName := factoryName }, fs.regs)
+  pure { h, constants, bpc, factoryName, props, globs, lfn }
+
+/-- `parse_lrcr_file_data(fdata, name_list)` started with the opcode singletons' operand registers `regs`;
+    returns the script and the registers afterwards -/
+def parseLscrWith (codec : Codec) (regs : Regs) (d : Bytes) (names : List Str) : R (Script × Regs) := do
+  let c ← readContainer codec d names
+  let ctx : Ctx := { names := names, constants := c.constants, localFuncs := c.lfn, props := c.props, params := [], localVars := [] }
+  let fs ← parseFuncs ctx d c.h.frbN.toNat c.h.frbOff { bpc := c.bpc, tell := false, regs := regs, funcs := [] }
+  pure ({ properties := c.props, globalVars := c.globs, functions := fs.funcs, scrNum := c.h.scrNum, contScrNum := c.h.contScrNum,
+          factoryName := c.factoryName }, fs.regs)
 
 /-- parse an Lscr chunk with the name table given as an Lnam chunk -/
 def parseScriptWith (codec : Codec) (regs : Regs) (lscr lnam : Bytes) : R (Script × Regs) := do
